@@ -5,7 +5,7 @@ from . import queryh as Q
 from .engine import Leg
 
 KIND = {"BFT": "KBft", "DFR": "KDfr", "DFI": "KDfi", "BFS": "KBft", "DSR": "KDfr", "DSI": "KDfi"}
-VALUES = [1, 1.0, True, "1", 2, 0, False, None, (1,), "x", 2.5]
+VALUES = [1, 1.0, True, "1", 2, 0, False, None, (1,), "x", 2.5, 7000, 7001]     # the last two: caller-supplied uids
 
 
 def c_tq(q, mlist=None):
@@ -53,7 +53,9 @@ def _gen_trav_case(rng, search=False, eph=False):
         for st in starts:
             for uni in ([uid, None] if uid is not None else [None]):
                 val = rng.choice(list(attrs.values())) if attrs and rng.random() < 0.7 else rng.randrange(len(VALUES))
-                attr = rng.choice(["k", "k", "k", "other"])
+                attr = rng.choice(["k", "k", "k", "other", "uid"])
+                if attr == "uid":      # an attribute every vertex has through its CLASS (a property), not its instance dict
+                    val = rng.choice([11, 12])
                 for t in ("BFS", "DSR", "DSI"):
                     queries.append([t, uni, st, attr, val])
         return {"ops": ops, "queries": queries, "attrs": attrs, "falsy": rng.random() < 0.5, "_uid": uid, "_vids": vids, "_lids": lids}
